@@ -1,0 +1,17 @@
+//go:build verif
+
+package lexerql
+
+// Contracts for the deductive verifier in /verif (govc). Comment-only: no code is added.
+
+//@ scope duration.go
+
+// ParseDuration accepts a Prometheus duration, else a Go duration; nothing else.
+//@ func ParseDuration
+//@   capture pm = call(model.ParseDuration, 0)
+//@   capture gd = call(time.ParseDuration, 0)
+//@   modifies nothing
+//@   ensures[prometheus-first] pm_r1 == nil ==> ret1 == nil && ret0 == time.Duration(pm_r0)
+//@   ensures[go-duration-second] pm_r1 != nil && gd_r1 == nil ==> ret1 == nil && ret0 == gd_r0
+//@   ensures[rejected-otherwise] pm_r1 != nil && gd_r1 != nil ==> ret1 != nil
+//@   ensures[inputs] pm_called && pm_a0 == s && (gd_called ==> gd_a0 == s)
